@@ -78,8 +78,20 @@ class Variable(FortranObj):
             return
         if self.parent is not None:
             link_obj = find_in_scope(self.parent, self.link_name, obj_tree)
-            if link_obj is not None:
+            if link_obj is not None and not self.links_back(link_obj):
                 self.link_obj = link_obj
+
+    def links_back(self, obj) -> bool:
+        """True if following the links of ``obj`` leads back to this object
+        e.g. ``x => x`` or ``x => y`` and ``y => x``; such a link is not made
+        because every getter that delegates to ``link_obj`` would never return"""
+        seen = []
+        while obj is not None and not any(obj is i for i in seen):
+            if obj is self:
+                return True
+            seen.append(obj)
+            obj = getattr(obj, "link_obj", None)
+        return False
 
     def require_link(self):
         return self.link_name is not None
